@@ -95,8 +95,8 @@ def judge(ctx, module, cfg, events, label, key=None, nontrivial=None, kf_tag=Non
             line = int(r.rejected[0][0])
             why = f"trace rejected by {module}: no action of the specification explains event {line}: {r.rejected[0][1][:1200]}"
         else:
-            m = re.search(r"/\\ l = (\d+)\s*$", r.out, re.M)
-            line = int(m.group(1)) if m else 1
+            m = re.findall(r"/\\ l = (\d+)\s*$", r.out, re.M)
+            line = max(int(m[-1]) - 1 if m else 1, r.generated - 1, 1)
             why = f"{module}: {', '.join(r.violated) or 'error'} at trace line {line}"
         pos, bad = 0, len(pending) - 1
         for i, run in enumerate(pending):
